@@ -164,7 +164,7 @@ def build(config, objects_only=False):
     return so
 
 
-def build_exe(config, name, sources, extra_flags=(), link_lib=True, extra_link=()):
+def build_exe(config, name, sources, extra_flags=(), link_lib=True, extra_link=(), with_shim=False):
     """Builds a standalone harness executable against the objects of a configuration."""
     build(config)
     flags, _ = CONFIGS[config]
@@ -176,6 +176,8 @@ def build_exe(config, name, sources, extra_flags=(), link_lib=True, extra_link=(
         if os.path.exists(stamp):
             return exe
         objs = open(os.path.join(out, "objects.txt")).read().split() if link_lib else []
+        if with_shim:
+            objs.append(os.path.join(out, "shim.o"))
         cmd = [CXX] + BASE + flags + list(extra_flags) + ["-I", os.path.join(REPO, "include"), "-I", os.path.join(VERIF, "harness")]
         cmd += [os.path.join(VERIF, "harness", s) for s in sources] + objs + ["-o", exe, "-lpthread"] + list(extra_link)
         _run(cmd, "harness")
